@@ -937,7 +937,7 @@ def _wrap_getitem(mon, orig):
                 ks = key_shape(key)
                 mon.keys_seen[ks] = mon.keys_seen.get(ks, 0) + 1
                 if is_sample(out) and out.ndim == 2 and is_sample(self) and self.ndim == 2 \
-                        and hasattr(out, '_channels'):
+                        and hasattr(out, 'channels'):
                     ok, lens = aligned(out)
                     mon.ctx.counters['chk_alignment_invariant'] += 1
                     mon.chk(ok, 'alignment-invariant', key=ks, shape=list(out.shape), metadata_counts=lens)
